@@ -234,7 +234,7 @@ def run_dump(spec, acc):
                 u_ = rng.randrange(1 << 20)
                 claims[s] = [hist.claim_name(u_, 1851), hist.claim_name(u_, 1851, inst_lo=rng.randrange(1, 8), inst_hi=rng.randrange(32)),
                              hist.claim_name(u_, 1851, function=rng.choice([140, 150, 160]), sys_inst=rng.randrange(16)),
-                             hist.claim_name(rng.randrange(1 << 20), rng.choice([1851, 1855, 137]))]
+                             hist.claim_name(rng.randrange(1 << 20), rng.choice([1851, 1855, 137])), hist.pick_name(rng)]
             events = hist.build_history(pool, rng, [1, 2], 60 if quick else 200, claims, p_claim=0.2 if c % 2 else 0.12)
             acc.count("dump_histories_with_reclaims_of_one_device")
             # text that is not ASCII travels too (PGN 126998, three variable-length strings): the dump is the JSON text
